@@ -37,6 +37,14 @@ Theorem from_record_accepts_iff : forall b0 b1 b2 rest k,
   (from_record (b0 :: b1 :: b2 :: rest) = Some k <-> header_window b0 b1 b2 k).
 Proof. exact from_record_accepts_iff_lemma. Qed.
 
+(* is_record_of_type_chunk is from_record's verdict: an error exactly when from_record errs (unknown
+   kind, short or malformed value), true exactly for a Chunk header *)
+Theorem is_chunk_iff_header_chunk : forall bs,
+  (is_record_of_type_chunk bs = Some true <-> from_record bs = Some KChunk) /\
+  (is_record_of_type_chunk bs = None <-> from_record bs = None) /\
+  (forall b, is_record_of_type_chunk bs = Some b -> exists k, from_record bs = Some k /\ (b = true <-> k = KChunk)).
+Proof. exact is_chunk_iff_header_chunk_lemma. Qed.
+
 Theorem from_record_short : forall bs, (length bs < 3)%nat -> from_record bs = None.
 Proof. exact from_record_short_lemma. Qed.
 
